@@ -76,6 +76,9 @@ pub fn managed_race(prop: &'static str, seed: u64, close: bool) -> RaceOut {
     if !close && !small && prop != "C11" && seed % 5 == 2 {
         return managed_steady_race(prop, seed);
     }
+    if close && !small && seed % 10 == 3 {
+        return handle_drop_race(prop, seed);
+    }
     let dense = rng.chance(1, 2);
     // for the status sampler (C11) half of the rounds run with one or two workers only: the race-proof
     // bound "waiting <= callers inside get()" is then tight enough to see an off-by-one
@@ -482,6 +485,132 @@ pub fn managed_steady_race(prop: &'static str, seed: u64) -> RaceOut {
     let desc = format!("managed race regime=steady objects={} getters={} iters={} lifo={} retain={} resize={} gets_ok={} created={} resizes={} retains={}", n, getters, iters, lifo, with_retain, with_resize, gets, c, resizes, retains);
     let shape = format!("steady {} {} {} {} {} {}", n, getters, lifo, with_retain, with_resize, seed);
     RaceOut { violations: viol, hash: vh_common::fnv1a(shape.as_bytes()), desc: Json::obj().with("engine", "th_race").with("profile_prop", prop).with("seed", seed).with("case", desc), events: gets + resizes + retains }
+}
+
+// ------------------------------------------------------------------ last handle dropped against objects in use
+
+/// "Objects that outlive every pool handle can still be used and dropped safely": the last `Pool`
+/// handle is dropped on one thread while another thread uses objects it has checked out (take, the
+/// handle accessor, metrics, plain drop). No call may panic, every object is destroyed exactly once, and
+/// detach is never called on behalf of a pool that is gone ... at most once per object in any case.
+pub fn handle_drop_race(prop: &'static str, seed: u64) -> RaceOut {
+    use std::sync::atomic::AtomicU64;
+    let mut rng = Rng::derive(seed, 0xd509, 0);
+    let trials = rng.range(4000, 10000) as u64;
+    let mut viol: Vec<Violation> = Vec::new();
+    let mut by_use = [0u64; 4];
+    let mut ahead = 0u64; // trials in which the handle was gone before the use started
+    let mut overlapped = 0u64; // trials in which the handle went while the use was under way
+    let mut events = 0u64;
+    // one helper thread for the whole round (spinning: a thread start per trial would be a hundred times
+    // longer than the window)
+    let slot: Arc<std::sync::Mutex<Option<Pool<LMgr>>>> = Arc::new(std::sync::Mutex::new(None));
+    let go = Arc::new(AtomicU64::new(0));
+    let gone = Arc::new(AtomicU64::new(0));
+    let delay = Arc::new(AtomicU64::new(0));
+    let helper = {
+        let (slot, go, gone, delay) = (slot.clone(), go.clone(), gone.clone(), delay.clone());
+        std::thread::spawn(move || {
+            let mut next = 1u64;
+            loop {
+                let g = loop {
+                    let g = go.load(Ordering::Acquire);
+                    if g >= next {
+                        break g;
+                    }
+                    std::hint::spin_loop();
+                };
+                if g == u64::MAX {
+                    return;
+                }
+                let p = slot.lock().unwrap().take();
+                spin(delay.load(Ordering::Relaxed));
+                drop(p);
+                gone.store(g, Ordering::Release);
+                next = g + 1;
+            }
+        })
+    };
+    // feedback: keep the two sides close to each other
+    let mut lead: i64 = 0;
+    for trial in 1..=trials {
+        let cnt = Arc::new(Cnt::default());
+        let max = rng.range(1, 3) as usize;
+        let pool: Pool<LMgr> = Pool::builder(LMgr(cnt.clone())).max_size(max).queue_mode(if rng.chance(1, 2) { managed::QueueMode::Lifo } else { managed::QueueMode::Fifo }).build().unwrap();
+        let mut objs = Vec::new();
+        for _ in 0..rng.range(1, max as u64) {
+            if let Some(Ok(o)) = poll_once(pool.timeout_get(&NB)) {
+                objs.push(o);
+            }
+        }
+        // sometimes an idle object stays in the pool, sometimes the pool had more handles before
+        if rng.chance(1, 3) && objs.len() > 1 {
+            drop(objs.pop());
+        }
+        if rng.chance(1, 3) {
+            drop(pool.clone());
+        }
+        let usage = rng.below(4) as usize;
+        by_use[usage] += 1;
+        delay.store((lead.max(0) as u64) + rng.below(24), Ordering::Relaxed);
+        let d_use = ((-lead).max(0) as u64) + rng.below(24);
+        *slot.lock().unwrap() = Some(pool);
+        go.store(trial, Ordering::Release);
+        spin(d_use);
+        let was_gone = gone.load(Ordering::Acquire) == trial;
+        let r = std::panic::catch_unwind(std::panic::AssertUnwindSafe(|| {
+            let o = objs.pop().unwrap();
+            match usage {
+                0 => drop(managed::Object::take(o)),
+                1 => {
+                    let p = managed::Object::pool(&o);
+                    let st = p.as_ref().map(|p| p.status());
+                    drop(p);
+                    drop(o);
+                    let _ = st;
+                }
+                2 => {
+                    let m = managed::Object::metrics(&o);
+                    let _ = m.recycle_count;
+                    drop(o);
+                }
+                _ => drop(o),
+            }
+        }));
+        let still_there = gone.load(Ordering::Acquire) != trial;
+        drop(objs);
+        while gone.load(Ordering::Acquire) != trial {
+            std::hint::spin_loop();
+        }
+        events += 3;
+        if was_gone {
+            ahead += 1;
+            lead += 1; // the handle went first: it waits longer next time
+        } else if still_there {
+            lead -= 1; // the use was over before the handle went: the use waits longer next time
+        } else {
+            overlapped += 1;
+        }
+        lead = lead.clamp(-400, 400);
+        if let Err(p) = r {
+            viol.push(Violation { prop, oracle: "object_use_panicked", msg: format!("trial {}: {} on an object whose pool's last handle was being dropped on another thread panicked: {}", trial, ["Object::take", "Object::pool", "Object::metrics + drop", "drop"][usage], vh_common::panic_message(&*p)) });
+            break;
+        }
+        let (c, d, det) = (cnt.created.load(Ordering::SeqCst), cnt.dropped.load(Ordering::SeqCst), cnt.detached.load(Ordering::SeqCst));
+        if c != d {
+            viol.push(Violation { prop, oracle: "objects_leaked", msg: format!("trial {}: {} objects created, {} destroyed after the pool and all its objects are gone", trial, c, d) });
+            break;
+        }
+        if det > d {
+            viol.push(Violation { prop, oracle: "detach_twice", msg: format!("trial {}: {} objects, detach called {} times", trial, d, det) });
+            break;
+        }
+    }
+    go.store(u64::MAX, Ordering::Release);
+    let _ = helper.join();
+    let desc = format!("last-handle race trials={} uses(take/pool/metrics/drop)={:?} handle_gone_first={} overlapped={}", trials, by_use, ahead, overlapped);
+    let shape = format!("handle_drop {} {}", seed, trials);
+    RaceOut { violations: viol, hash: vh_common::fnv1a(shape.as_bytes()), desc: Json::obj().with("engine", "th_race").with("profile_prop", prop).with("seed", seed).with("case", desc), events }
 }
 
 // ------------------------------------------------------------------ unmanaged
